@@ -219,3 +219,32 @@ Definition build_app (a : app_cfg) : result (plan * plan) :=
                                    (dedup (a_resources a ++ a_route_resources a))
                                    merged (a_endpoint a) (a_render a))) (fun pr =>
   Ok (pn, pr))))).
+
+(* ---------------- an application embedded in an outer application under a prefix ---------------- *)
+(* Application([(prefix, inner)], resources, middlewares): the inner application is constructed first (build_app);
+   the outer one checks its own resources and middlewares, binds its null route, and RE-binds the inner
+   application's bound route: URL names of the prefix are added, the outer list is merged in front of the
+   already merged inner list, the resources of all levels are visible by name *)
+Record outer_cfg := mk_outer_cfg {
+  o_resources : list name;
+  o_mws : list mw;
+  o_prefix_url : list name
+}.
+
+Definition outer_null_cfg (o : outer_cfg) : route_cfg :=
+  mk_route_cfg ["_ignored"] (o_resources o) (o_mws o) null_sig noop_render_sig.
+
+Definition nested_route_cfg (o : outer_cfg) (a : app_cfg) (merged : list mw) : route_cfg :=
+  mk_route_cfg (o_prefix_url o ++ a_route_url a)
+               (dedup (o_resources o ++ a_resources a ++ a_route_resources a))
+               merged (a_endpoint a) (a_render a).
+
+Definition build_nested (o : outer_cfg) (a : app_cfg) : result (plan * plan * list mw) :=
+  rbind (build_app a) (fun _ =>
+  if existsb (fun r => mem r (o_resources o)) RESERVED_ARGS then Raise "NameError" else
+  rbind (check_middlewares (o_mws o) []) (fun _ =>
+  rbind (build_route (outer_null_cfg o)) (fun pn =>
+  rbind (merge_middlewares (a_route_mws a) (a_mws a)) (fun m1 =>
+  rbind (merge_middlewares m1 (o_mws o)) (fun m2 =>
+  rbind (build_route (nested_route_cfg o a m2)) (fun pr =>
+  Ok (pn, pr, m2))))))).
